@@ -115,15 +115,16 @@ func solveOne(ob *Obligation, dir string, quick, full time.Duration, twoUnsat bo
 	}
 	{
 		qctx, qcancel := context.WithCancel(context.Background())
-		qch := make(chan solveResult, 2)
-		for _, s := range solvers[:2] {
+		quickSet := []solverSpec{solvers[0], solvers[1], solvers[3]}
+		qch := make(chan solveResult, len(quickSet))
+		for _, s := range quickSet {
 			s := s
 			go func() { qch <- runSolver(qctx, s, file, quick) }()
 		}
-		for i := 0; i < 2; i++ {
+		for i := 0; i < len(quickSet); i++ {
 			r := <-qch
 			// "sat" from the e-matching-only configuration is not trusted (incomplete); only unsat counts
-			if r.verdict == "unsat" || (r.verdict == "sat" && r.solver == solvers[0].name) {
+			if r.verdict == "unsat" || (r.verdict == "sat" && r.solver != solvers[1].name) {
 				qcancel()
 				finish(r)
 				return
